@@ -3,6 +3,7 @@
 package opentype
 
 import (
+	"bytes"
 	"compress/zlib"
 	"encoding/binary"
 	"errors"
@@ -126,6 +127,13 @@ func NewLoaders(file Resource) ([]*Loader, error) {
 
 // dst is an optional storage which may be provided to reduce allocations.
 func (pr *Loader) findTableBuffer(s tableSection, dst []byte) ([]byte, error) {
+	// the lengths come from the table directory: make sure the table lies inside
+	// the file before allocating anything
+	if s.length != 0 {
+		if size, err := pr.file.Seek(0, io.SeekEnd); err == nil && int64(s.offset)+int64(s.length) > size {
+			return nil, errors.New("invalid table offset or length")
+		}
+	}
 	if s.length != 0 && s.length < s.zLength {
 		zbuf := io.NewSectionReader(pr.file, int64(s.offset), int64(s.length))
 		r, err := zlib.NewReader(zbuf)
@@ -134,13 +142,14 @@ func (pr *Loader) findTableBuffer(s tableSection, dst []byte) ([]byte, error) {
 		}
 		defer r.Close()
 
-		if cap(dst) < int(s.zLength) {
-			dst = make([]byte, s.zLength)
-		}
-		dst = dst[0:s.zLength]
-		if _, err := io.ReadFull(r, dst); err != nil {
+		// zLength is not trusted either: grow the buffer as the data is actually inflated
+		buf := bytes.NewBuffer(dst[:0])
+		if n, err := io.Copy(buf, io.LimitReader(r, int64(s.zLength))); err != nil {
 			return nil, err
+		} else if n != int64(s.zLength) {
+			return nil, io.ErrUnexpectedEOF
 		}
+		dst = buf.Bytes()
 	} else {
 		if cap(dst) < int(s.length) {
 			dst = make([]byte, s.length)
